@@ -37,27 +37,29 @@ theorem slice_addr (ap nap : AP) (size ndStart ndEnd : Int) (sls : List (Option 
     (c : List Int) (hc : c.length = nap.shape.length)  :
     ndStart + dot c nap.strides =
       dot (List.zipWith (fun (p : Int × Int) ci => p.1 + ci * p.2) (selOf sls ap.shape) (expandCoord (droppedOf rs sls) c)) ap.strides := by
-  sorry
+  exact slice_addr' selOf (fun sls => by cases sls <;> rfl) (fun _ _ _ => rfl)
+    expandCoord (fun _ => rfl) (fun _ _ => rfl) (fun _ _ _ => rfl)
+    ap nap size ndStart ndEnd sls rs hloop h hns c hc
 
 /-- `Memset` through a view (iterator path) writes the cells at the iterator's offsets … -/
 theorem memset_writes (st st' : St) (t : Dense) (v : Val) (hm : t.isMaterializable = true)
     (h : t.memset st v = .ok st') (i : Int) (hi : i ∈ t.offsets) :
     st'.get t.win i = .ok v := by
-  sorry
+  exact memset_writes' st st' t v hm h i hi
 
 /-- … and no other cell of any buffer: writes stay inside the view. -/
 theorem memset_frame (st st' : St) (t : Dense) (v : Val) (hm : t.isMaterializable = true)
     (h : t.memset st v = .ok st') (b k : Nat)
     (hout : b ≠ t.win.buf ∨ ∀ i ∈ t.offsets, (k : Int) ≠ t.win.off + i) :
     cell st' b k = cell st b k := by
-  sorry
+  exact memset_frame' st st' t v hm h b k hout
 
 /-- `Zero` on a view (after the `fix:`) touches only the view's cells as well. -/
 theorem zero_frame (st st' : St) (t : Dense) (hm : t.isMaterializable = true)
     (h : t.zero st = .ok st') (b k : Nat)
     (hout : b ≠ t.win.buf ∨ ∀ i ∈ t.offsets, (k : Int) ≠ t.win.off + i) :
     cell st' b k = cell st b k := by
-  sorry
+  exact zero_frame' st st' t hm h b k hout
 
 /-- `Clone` allocates a fresh buffer, copies the whole storage window and leaves every existing
     buffer as it was; the access pattern is the same, so the clone is logically equal and shares
@@ -66,23 +68,44 @@ theorem clone_fresh (st st' : St) (t r : Dense) (hnm : t.mask = none) (h : t.clo
     r.win.buf = st.heap.size ∧ r.win.off = 0 ∧ r.win.len = t.win.len ∧
     r.ap.shape = t.ap.shape ∧ r.ap.strides = t.ap.strides ∧ r.ap.o = t.ap.o ∧ r.view = false ∧
     (∀ b k, b < st.heap.size → cell st' b k = cell st b k) := by
-  sorry
+  exact clone_fresh' st st' t r hnm h
+
+/- Original statement (FALSE as written: nothing says that `t`'s buffer exists in `st`):
 
 theorem clone_eq (st st' : St) (t r : Dense) (hnm : t.mask = none) (h : t.clone st = .ok (st', r))
     (i : Int) (hi : 0 ≤ i ∧ i < t.win.len) :
+    st'.get r.win i = st.get t.win i
+
+   Counterexample (`clone_eq_full_fails` below): the empty heap and a tensor whose window names the
+   not-yet-allocated buffer `st.heap.size`. `Clone` allocates exactly that index, so the copy loop
+   reads the fresh zero-filled buffer and succeeds, whereas the read in the original state panics
+   ("no such buffer"). The proved variant adds the well-formedness hypothesis `hwf` that the
+   source buffer is allocated in `st`. -/
+theorem clone_eq_partial (st st' : St) (t r : Dense) (hnm : t.mask = none) (h : t.clone st = .ok (st', r))
+    (hwf : t.win.buf < st.heap.size)
+    (i : Int) (hi : 0 ≤ i ∧ i < t.win.len) :
     st'.get r.win i = st.get t.win i := by
-  sorry
+  exact clone_eq' st st' t r hnm h hwf i hi
+
+/-- The unrestricted statement fails for a dangling source window. -/
+theorem clone_eq_full_fails :
+    ∃ (st st' : St) (t r : Dense) (i : Int), t.mask = none ∧ t.clone st = .ok (st', r) ∧
+      (0 ≤ i ∧ i < t.win.len) ∧ st'.get r.win i ≠ st.get t.win i := by
+  refine ⟨{}, _, { ap := { shape := [1], strides := [1] }, win := ⟨0, 0, 1, 1⟩, dt := "int" }, _, 0,
+    rfl, rfl, by decide, ?_⟩
+  intro h
+  cases h
 
 /-- `CopyTo` refuses views with an error and copies nothing. -/
 theorem copyTo_refuses_views (st : St) (t other : Dense) (hv : t.view = true ∨ other.view = true)
     (hs : other.size = t.size) :
     ∃ tag, t.copyTo st other = .error (.err tag) := by
-  sorry
+  exact copyTo_refuses_views' st t other hv hs
 
 /-- `Materialize` of a tensor that is neither a view nor lazily transposed returns the tensor itself. -/
 theorem materialize_self (st : St) (t : Dense) (h : t.isMaterializable = false) :
     t.materialize st = .ok (st, none) := by
-  sorry
+  exact materialize_self' st t h
 
 -- non-vacuity
 example : expandCoord [false, true, false] [5, 7] = [5, 0, 7] := by decide
